@@ -242,7 +242,7 @@ def tree(rc):
 _ASSIGN = "                if not is_used[index] and set(factor.scope()).issubset(node):\n                    clique_factors.append(factor)\n                    is_used[index] = True"
 
 
-@rule("C14.defuse", "anchored files: every parameter is read, no value is computed and dropped (generic def-use detectors, triaged hit list)", floor=2)
+@rule("C14.defuse", "anchored files: no parameter is accepted and ignored (generic def-use detector, triaged exemptions)", floor=2)
 def defuse(rc):
     from . import shared as _sh
     _sh.defuse_rule(rc, _sh.anchor_files("C14"))
